@@ -335,7 +335,7 @@ var inlinePieces = []string{
 	"![img](/i.png)", "![a *b*](/i \"t\")", "<http://a.b/c>", "<a@b.co>", "<span class=\"x\">", "</span>", "<!-- c -->", "\\*", "\\\\", "&amp;", "&copy;", "&#65;", "&#x41;", "&#0;",
 	"a  \nb", "a\\\nb", "a\nb", "~~del~~", "www.example.com", "http://example.com/a?b=c", "mail@example.com", "[^1]", "[^n]", "\"q\"", "'s", "--", "---", "...", "<<", ">>",
 	"日本語", "日本\n語", "é", "[x](javascript:alert(1))", "[x](data:image/png;base64,AA)", "<javascript:x>", "![i](vbscript:x)", "a<b>c", "\"'&<>", "{#i .c}", "\x00", "\xff",
-	"[a](<b c> 'd')", "[a]( /u )", "*a `b* c`", "**a *b* c**", "_a_b_", "[![i](s)](d)", "[a [b](c)](d)", "\\ ", "\\&amp;", "&ouml;x", "&#1234567;", "&#xffffff;", "&nosuch;",
+	"[![~~[in](/in)~~](/i.png)](/out)", "[![*[a](b)*](c)](d)", "[~~[a](b)~~](c)", "[*[a](b)*](c)", "[![[a](b)](c)](d)", "[![`x` [a](b) **[c](d)**](e)](f)", "[a](<b c> 'd')", "[a]( /u )", "*a `b* c`", "**a *b* c**", "_a_b_", "[![i](s)](d)", "[a [b](c)](d)", "\\ ", "\\&amp;", "&ouml;x", "&#1234567;", "&#xffffff;", "&nosuch;",
 }
 
 func genInline(rng *RNG) string {
@@ -414,7 +414,7 @@ func genBlock(rng *RNG, depth int) string {
 		row := func() string {
 			var c []string
 			for i, n := 0, cols+rng.Intn(3)-1; i < n; i++ {
-				c = append(c, []string{"a", "*b*", "`c|d`", "e\\|f", "", "[l](/u)", "&amp;"}[rng.Intn(7)])
+				c = append(c, []string{"a", "*b*", "`c|d`", "e\\|f", "", "[l](/u)", "&amp;", "`a \\| b \\| c`", "`x\\|y\\|z\\|w` `p\\|q`", "*`m\\|n\\|o`*"}[rng.Intn(10)])
 			}
 			return "| " + strings.Join(c, " | ") + " |\n"
 		}
